@@ -115,3 +115,21 @@ func NewReplaceValues(replace []parser.ReplaceValue) *ReplaceValues {
 		Names:  names,
 	}
 }
+
+// EvaluateReplaceValues evaluates the values of a USING clause in the scope of the statement that gives them
+// (EXECUTE, OPEN): a value is evaluated once, and the names in it are those of that statement, not those of the
+// blocks and functions of the prepared statement in which the placeholder is met.
+func EvaluateReplaceValues(ctx context.Context, scope *ReferenceScope, replace []parser.ReplaceValue) (*ReplaceValues, error) {
+	evaluated := make([]parser.ReplaceValue, len(replace))
+	for i := range replace {
+		p, err := Evaluate(ctx, scope, replace[i].Value)
+		if err != nil {
+			return nil, err
+		}
+		evaluated[i] = parser.ReplaceValue{
+			Value: parser.PrimitiveType{BaseExpr: replace[i].Value.GetBaseExpr(), Value: p},
+			Name:  replace[i].Name,
+		}
+	}
+	return NewReplaceValues(evaluated), nil
+}
